@@ -16,7 +16,7 @@ func C06(e *simkern.Env) {
 		maxOps = 10
 	}
 	ops := pipew.GenOps(tp, pipew.GenCfg{MinOps: 1, MaxOps: maxOps, OnlyStream: true, FailBias: 5, InitFail: true,
-		Cancel: true, Cast: true, WriteAhead: true, Levels: true, MaxTurns: 7, NonceBase: 2000, EmitMeta: true, InputMeta: true, AfterCancel: true, ZeroRows: true, NoHook: true})
+		Cancel: true, Cast: true, BadCast: true, WriteAhead: true, Levels: true, MaxTurns: 7, NonceBase: 2000, EmitMeta: true, InputMeta: true, AfterCancel: true, ZeroRows: true, NoHook: true})
 	kn := pipew.DrawKnobs(tp)
 	e.Knob("frag", kn.Frag)
 	e.Knob("yield_on_write", kn.YieldOnWrite)
